@@ -25,6 +25,9 @@ from .parsers import bits
 NG_DTYPES = ["uint8", "uint16", "uint32", "uint64", "float32"]
 AVG_FACTORS = [(a, b, c) for a in (1, 2) for b in (1, 2) for c in (1, 2)]
 ANY_FACTORS = [(a, b, c) for a in (1, 2, 3) for b in (1, 2, 3) for c in (1, 2, 3)]
+# larger factors (the stride and majority methods take any positive triple)
+ANY_FACTORS += [(4, 1, 1), (1, 4, 1), (1, 1, 4), (4, 4, 4), (2, 2, 8), (8, 4, 2), (1, 6, 1), (5, 1, 2),
+                (4, 2, 1), (6, 3, 2), (4, 4, 1), (2, 4, 2)]
 EXTRA_FRAC_BITS = 3          # a mean of 8 values needs 3 more fraction bits
 
 
@@ -60,9 +63,27 @@ def get_downscaler(method, outside, itype="image"):
     process that converts several datasets does (downscalers are documented as
     plain strategy objects)."""
     key = (method, repr(outside), itype)
-    if key not in _OBJECTS:
+    uses = _USES.get(key, 0)
+    _USES[key] = uses + 1
+    if key not in _OBJECTS or uses % 40 == 39:
+        # every now and then a NEW object is built - from the same options dictionary
+        # the earlier ones were built from (a process keeps one vars(args) around)
         _OBJECTS[key] = _new_downscaler(method, outside, itype)
     return _OBJECTS[key]
+
+
+_USES = {}
+_SHARED_OPTIONS = {}
+
+
+def _options_for(method, outside):
+    """the caller's options dictionary, one per (method, outside value), handed to
+    get_downscaler again and again"""
+    key = (method, repr(outside))
+    if key not in _SHARED_OPTIONS:
+        _SHARED_OPTIONS[key] = ({"downscaling_method": "auto", "outside_value": outside} if method == "auto"
+                                else {"outside_value": outside})
+    return _SHARED_OPTIONS[key]
 
 
 def _new_downscaler(method, outside, itype="image"):
@@ -73,9 +94,9 @@ def _new_downscaler(method, outside, itype="image"):
     if method == "auto":
         return downscaling.get_downscaler(
             "auto", {"type": itype, "data_type": "uint8", "num_channels": 1, "scales": []},
-            {"downscaling_method": "auto", "outside_value": outside})
+            _options_for("auto", outside))
     if method == "average":
-        return downscaling.get_downscaler("average", options={"outside_value": outside})
+        return downscaling.get_downscaler("average", options=_options_for("average", outside))
     return downscaling.get_downscaler(method)
 
 
